@@ -187,6 +187,12 @@ def saveload_family(rep, n_cases, n_ops, n_points, known_classes=(), nproc=16):
 # (names bound by import lines; text the player typed into @input forms): real code only
 
 SESSIONS = [
+    {"name": "hooks toggled after the load",
+     "source": (":: Start\n~ hp = 9\n@hook turn_end Bleed\n@hook turn_end Regen\nA cut.\n+ [walk] -> Road\n\n"
+                ":: Road\nRoad.\n+ [bandage] -> Bandage\n+ [curse] -> Curse\n+ [walk] -> Road\n\n"
+                ":: Bandage\n@unhook turn_end Bleed\nBandaged {hp}.\n+ [walk] -> Road\n\n:: Curse\n@hook turn_end Bleed\n@unhook turn_end Regen\nCursed {hp}.\n+ [walk] -> Road\n\n"
+                ":: Bleed\n~ hp = hp - 2\n\n:: Regen\n~ hp = hp + 1\n"),
+     "pre": [("choose", 0)], "post": [("choose", 0), ("choose", 0), ("choose", 1), ("choose", 0), ("choose", 2)]},
     {"name": "non-finite floats",
      "source": (":: Start\n~ limit = float('inf')\n~ floor_ = -float('inf')\n~ half = 0.5\n~ best = {'score': float('inf'), 'runs': [1.5, float('inf')]}\n~ gold = 3\nGate.\n+ [Enter] -> Hall\n\n"
                 ":: Hall\nGold {gold}, limit {limit}, half {half}.\n+ {gold < limit} [Earn] -> Earn\n+ {gold > floor_} [Look] -> Look\n+ {limit == 5} [Never] -> Hall\n\n"
@@ -249,6 +255,7 @@ def session_probes(rep):
                 doc = json.loads(json.dumps(a.save_state()))
                 shown = a.current()
                 b = BardEngine(copy.deepcopy(story))
+                doc_before = copy.deepcopy(doc)
                 b.load_state(doc)
                 shown_b = b.current()
             first = None
@@ -258,6 +265,17 @@ def session_probes(rep):
             if first is None and oa != ob:
                 k = next(i for i, (x, y) in enumerate(zip(oa, ob)) if x != y)
                 first = f"continuation call {k}: original {json.dumps(oa[k])[:200]} vs loaded {json.dumps(ob[k])[:200]}"
+            if first is None and doc != doc_before:
+                first = "the save document itself was changed by the game that loaded it (a second load of the same document gives another game)"
+            if first is None:
+                # the same parsed document loaded a second time, after the first loaded game has played on
+                with quiet():
+                    c_ = BardEngine(copy.deepcopy(story))
+                    c_.load_state(doc)
+                    oc = _obs_session(c_, s["post"])
+                if oc != oa:
+                    k = next(i for i, (x, y) in enumerate(zip(oa, oc)) if x != y)
+                    first = f"a second load of the same document, continuation call {k}: original {json.dumps(oa[k])[:160]} vs loaded {json.dumps(oc[k])[:160]}"
             if first:
                 rep.violations.append({"cls": None, "family": "c05-sessions", "what": f"session '{s['name']}' continues differently after save/load — {first}",
                                        "source": s["source"], "ops": [{"op": n_, "i": i} for n_, i in s["pre"] + s["post"]], "inputs": s.get("inputs")})
